@@ -143,7 +143,7 @@ pub fn run_shard(ctx: &mut ShardCtx) {
     if ctx.shard == 0 {
         ctx.witnesses(&replay);
     }
-    let n = ctx.share(ctx.tier.pick(8_000, 120_000));
+    let n = ctx.share(ctx.tier.pick(32_000, 600_000));
     let excluded: Vec<String> = ctx.excludes.keys().cloned().collect();
     let ex2 = excluded.clone();
     let strat = (gen_cfg(), gen_history(&opts(ctx))).prop_map(move |(cfg, steps)| Hist { cfg, steps, excluded: excluded.clone() });
